@@ -293,7 +293,10 @@ class Ctx:
             if k["id"] not in [x["id"] for x in self.known_hits]:
                 self.known_hits.append(k)
             return False
-        if len(self.violations) >= 5:
+        key = json.dumps(sig or {}, sort_keys=True, default=str)
+        self.sig_counts = getattr(self, "sig_counts", {})
+        self.sig_counts[key] = self.sig_counts.get(key, 0) + 1
+        if self.sig_counts[key] > 2 or len([v for v in self.violations if v[1]]) >= 12:
             self.violations.append((what, None))
             return True
         os.makedirs(os.path.join(VERIF, "evidence", "replays"), exist_ok=True)
